@@ -300,3 +300,220 @@ Proof.
         -- apply Nat.eqb_eq. lia.
       * apply Nat.eqb_eq. lia.
 Qed.
+
+(** * the sequential machine and the interleaving model
+
+    The registry fragment of the sequential machine — Spawn at top level,
+    Stop, GetPID on actors without children, none held in a handler — is what
+    the interleaving model does when calls do not overlap: whichever threads
+    issue them, if every call runs to completion (its one or two lock-level
+    steps) before the next one starts, the lock-level state projects onto the
+    state of the sequential machine run on the same calls in the same order. *)
+
+Definition tr (o : cop) : sop :=
+  match o with CAdd i => OSpawn i | CStop i => OStop i | CGet i => OGet i end.
+
+(* thread t runs its next call to completion *)
+Definition complete (s : cst) (t : nat) : option cst :=
+  match cstep s t with
+  | None => None
+  | Some (s1, LAdd _ _ _) | Some (s1, LTry _ (Some _)) => option_map fst (cstep s1 t)
+  | Some (s1, _) => Some s1
+  end.
+
+(* executions without overlap, and the calls they consist of in order *)
+Inductive nonoverlap : cst -> list sop -> cst -> Prop :=
+| no_nil s : nonoverlap s [] s
+| no_cons s t o rest s1 h s2 :
+    c_thr s !! t = Some (MIdle, o :: rest) -> complete s t = Some s1 -> nonoverlap s1 h s2 ->
+    nonoverlap s (tr o :: h) s2.
+
+Definition cwl (ids0 : list id) (i : id) (l : list nat) : nat := length (filter (fun p => ids0 !! p = Some i) l).
+
+Lemma cwl_snoc ids0 j i l :
+  (forall p, p ∈ l -> p < length ids0) -> cwl (ids0 ++ [j]) i l = cwl ids0 i l.
+Proof.
+  unfold cwl. induction l as [|p l IH]; [done|]. intros Hlt. rewrite !filter_cons.
+  rewrite lookup_app_l by (apply Hlt; left).
+  destruct (decide (ids0 !! p = Some i)); simpl; rewrite IH; try done; intros q Hq; apply Hlt; by right.
+Qed.
+
+Lemma cwl_cons_new ids0 j i l :
+  cwl (ids0 ++ [j]) i (length ids0 :: l) = (if Nat.eqb j i then 1 else 0) + cwl (ids0 ++ [j]) i l.
+Proof.
+  unfold cwl. rewrite filter_cons, lookup_app_r, Nat.sub_diag by lia. simpl.
+  destruct (Nat.eqb_spec j i) as [->|Hne].
+  - by rewrite decide_True.
+  - rewrite decide_False; [done|congruence].
+Qed.
+
+Record Rel (q : sst) (s : cst) : Prop := {
+  rl_idle : forall t m prog, c_thr s !! t = Some (m, prog) -> m = MIdle;
+  rl_live : forall i, is_live q i = match c_reg s i with Some _ => true | None => false end;
+  rl_entry : forall i p, c_reg s i = Some p -> c_ids s !! p = Some i /\ p ∈ c_started s /\ p ∉ c_stopped s;
+  rl_runs : forall i, runs q i = cwl (c_ids s) i (c_started s);      (* Producer runs = Start() calls for the id *)
+  rl_dups : forall i, dups q i = cwl (c_ids s) i (c_dup s);          (* duplicate events = losing adds of the id *)
+  rl_lt : forall p, p ∈ c_started s \/ p ∈ c_dup s -> p < length (c_ids s);
+  rl_stopped : forall p, p ∈ c_stopped s -> p ∈ c_started s;
+  rl_flat : forall i r, procs q i = Some r -> p_parent r = None /\ p_blocked r = false /\ p_stopping r = false;
+  rl_kids : forall i, kids q i = [];
+  rl_bad : bad q = false
+}.
+
+Lemma Rel_init progs : Rel sinit (cinit progs).
+Proof.
+  split; simpl; try done.
+  - intros t m prog H. apply list_lookup_fmap_inv in H as (? & [= -> _] & _). done.
+  - intros p [H|H]; by apply elem_of_nil in H.
+Qed.
+
+Lemma lookup_insert_same_len {A} (l : list A) t x y : l !! t = Some x -> <[t := y]> l !! t = Some y.
+Proof. intros H. apply list_lookup_insert. by eapply lookup_lt_Some. Qed.
+
+Lemma link_step q s t o rest :
+  Rel q s -> c_thr s !! t = Some (MIdle, o :: rest) ->
+  exists s', complete s t = Some s' /\ Rel (sstep q (tr o)) s' /\ c_thr s' = <[t := (MIdle, rest)]> (c_thr s).
+Proof.
+  intros H Ht.
+  assert (Hidle : forall (thr' : list thread), thr' = <[t := (MIdle, rest)]> (c_thr s) ->
+            forall t0 m prog, thr' !! t0 = Some (m, prog) -> m = MIdle).
+  { intros thr' -> t0 m prog H0. apply list_lookup_insert_Some in H0 as [(_ & [= <- _] & _)|(_ & H0)]; [done|].
+    by eapply (rl_idle _ _ H). }
+  destruct o as [i|i|i]; unfold complete, cstep; rewrite Ht; simpl tr.
+  - (* Spawn / add *)
+    destruct (c_reg s i) as [p0|] eqn:Hr.
+    + (* the id is taken: the add loses, the duplicate event is published *)
+      cbn [cstep c_thr]. unfold cstep. cbn [c_thr]. rewrite (lookup_insert_same_len _ _ _ _ Ht). cbn.
+      eexists. split; [done|]. split; [|by rewrite list_insert_insert].
+      assert (Hl : is_live q i = true) by (by rewrite (rl_live _ _ H), Hr).
+      simpl. unfold spawn. rewrite Hl.
+      split; simpl.
+      * apply Hidle. by rewrite list_insert_insert.
+      * apply (rl_live _ _ H).
+      * intros i' p' Hr'. destruct (rl_entry _ _ H _ _ Hr') as (?&?&?). split_and!; try done. by apply lookup_app_l_Some.
+      * intros i'. rewrite cwl_snoc; [apply (rl_runs _ _ H)|]. intros p Hp. apply (rl_lt _ _ H). by left.
+      * intros i'. rewrite cwl_cons_new, cwl_snoc by (intros p Hp; apply (rl_lt _ _ H); by right).
+        unfold fupd. rewrite Nat.eqb_sym. destruct (Nat.eqb_spec i i') as [->|?]; rewrite (rl_dups _ _ H); lia.
+      * intros p. rewrite app_length. simpl. intros [Hp|[->|Hp]%elem_of_cons]; [|lia|].
+        -- pose proof (rl_lt _ _ H p (or_introl Hp)). lia.
+        -- pose proof (rl_lt _ _ H p (or_intror Hp)). lia.
+      * apply (rl_stopped _ _ H).
+      * apply (rl_flat _ _ H).
+      * apply (rl_kids _ _ H).
+      * apply (rl_bad _ _ H).
+    + (* the id is free: the add wins and Start() runs *)
+      cbn [cstep c_thr]. unfold cstep. cbn [c_thr]. rewrite (lookup_insert_same_len _ _ _ _ Ht). cbn.
+      eexists. split; [done|]. split; [|by rewrite list_insert_insert].
+      assert (Hl : is_live q i = false) by (by rewrite (rl_live _ _ H), Hr).
+      simpl. unfold spawn. rewrite Hl.
+      split; simpl.
+      * apply Hidle. by rewrite list_insert_insert.
+      * intros i'. unfold is_live. simpl. unfold fupd. destruct (Nat.eqb_spec i' i) as [->|?]; [done|]. apply (rl_live _ _ H).
+      * intros i' p'. unfold fupd. destruct (Nat.eqb_spec i' i) as [->|?].
+        -- intros [= <-]. split_and!; [by rewrite lookup_app_r, Nat.sub_diag by lia|left|].
+           intros Hs. apply (rl_stopped _ _ H) in Hs. pose proof (rl_lt _ _ H _ (or_introl Hs)). lia.
+        -- intros Hr'. destruct (rl_entry _ _ H _ _ Hr') as (?&?&?). split_and!; [by apply lookup_app_l_Some|by right|done].
+      * intros i'. rewrite cwl_cons_new, cwl_snoc by (intros p Hp; apply (rl_lt _ _ H); by left).
+        unfold fupd. rewrite Nat.eqb_sym. destruct (Nat.eqb_spec i i') as [->|?]; rewrite (rl_runs _ _ H); lia.
+      * intros i'. rewrite cwl_snoc; [apply (rl_dups _ _ H)|]. intros p Hp. apply (rl_lt _ _ H). by right.
+      * intros p. rewrite app_length. simpl. intros [[->|Hp]%elem_of_cons|Hp]; [lia| |].
+        -- pose proof (rl_lt _ _ H p (or_introl Hp)). lia.
+        -- pose proof (rl_lt _ _ H p (or_intror Hp)). lia.
+      * intros p Hp. right. by apply (rl_stopped _ _ H).
+      * intros i' r. unfold fupd. destruct (Nat.eqb_spec i' i) as [->|?]; [by intros [= <-]|apply (rl_flat _ _ H)].
+      * intros i'. unfold fupd. destruct (Nat.eqb_spec i' i); [done|apply (rl_kids _ _ H)].
+      * apply (rl_bad _ _ H).
+  - (* Stop *)
+    remember (sstep q (OStop i)) as q' eqn:Eq'.
+    destruct (c_reg s i) as [p|] eqn:Hr.
+    + destruct (rl_entry _ _ H _ _ Hr) as (Hid & Hst & Hns).
+      assert (Hm : mem p (c_started s) && negb (mem p (c_stopped s)) = true).
+      { apply andb_true_intro. split; [by apply mem_true|]. apply negb_true_iff. by apply mem_false. }
+      rewrite Hm. cbn [cstep c_thr]. unfold cstep. cbn [c_thr]. rewrite (lookup_insert_same_len _ _ _ _ Ht). cbn.
+      eexists. split; [done|]. split; [|by rewrite list_insert_insert].
+      assert (Hl : is_live q i = true) by (by rewrite (rl_live _ _ H), Hr).
+      unfold is_live in Hl. destruct (procs q i) as [r|] eqn:Hq; [|done].
+      destruct (rl_flat _ _ H _ _ Hq) as (Hpar & Hbl & Hsp).
+      assert (Hstop : sstep q (OStop i) =
+                {| procs := fupd (procs q) i None; kids := fupd (kids q) i []; runs := runs q; dups := dups q;
+                   recvd := recvd q; gate := gate q; bad := bad q |}).
+      { simpl. unfold busy. rewrite Hq, Hbl, Hsp. simpl. rewrite FUEL_S, stop_tree_S, Hq, Hbl, Hsp. simpl.
+        rewrite (rl_kids _ _ H). simpl. by rewrite Hpar. }
+      rewrite Eq', Hstop. split; simpl.
+      * apply Hidle. by rewrite list_insert_insert.
+      * intros i'. unfold is_live. simpl. unfold fupd. destruct (Nat.eqb_spec i' i) as [->|?]; [done|]. apply (rl_live _ _ H).
+      * intros i' p'. unfold fupd. destruct (Nat.eqb_spec i' i) as [->|?]; [done|]. intros Hr'.
+        destruct (rl_entry _ _ H _ _ Hr') as (?&?&?). split_and!; try done.
+        intros [->|?]%elem_of_cons; [congruence|done].
+      * apply (rl_runs _ _ H).
+      * apply (rl_dups _ _ H).
+      * apply (rl_lt _ _ H).
+      * intros p' [->|?]%elem_of_cons; [done|by apply (rl_stopped _ _ H)].
+      * intros i' r'. unfold fupd. destruct (Nat.eqb_spec i' i); [done|apply (rl_flat _ _ H)].
+      * intros i'. unfold fupd. destruct (Nat.eqb_spec i' i); [done|apply (rl_kids _ _ H)].
+      * apply (rl_bad _ _ H).
+    + cbn. eexists. split; [done|]. split; [|done].
+      assert (Hl : is_live q i = false) by (by rewrite (rl_live _ _ H), Hr).
+      unfold is_live in Hl. destruct (procs q i) as [r|] eqn:Hq; [done|].
+      assert (Hstop : sstep q (OStop i) = q).
+      { simpl. unfold busy. rewrite Hq. by rewrite FUEL_S, stop_tree_S, Hq. }
+      rewrite Eq', Hstop. split; simpl; try apply H. by apply Hidle.
+  - (* GetPID *)
+    cbn. eexists. split; [done|]. split; [|done]. split; simpl; try apply H. by apply Hidle.
+Qed.
+
+Lemma nonoverlap_creach s h s' : nonoverlap s h s' -> creach s s'.
+Proof.
+  induction 1 as [|s t o rest s1 h s2 Ht Hc _ IH]; [apply creach_refl|].
+  assert (creach s s1).
+  { unfold complete in Hc. destruct (cstep s t) as [[sa l]|] eqn:E1; [|done].
+    assert (creach s sa) by (eapply creach_step; [apply creach_refl|done]).
+    destruct l as [? ? ?| | |? [?|]| |]; try (injection Hc as <-; done);
+      destruct (cstep sa t) as [[sb l2]|] eqn:E2; try done; injection Hc as <-; by eapply creach_step. }
+  clear -H IH. induction IH; [done|]. by eapply creach_step.
+Qed.
+
+(* every execution of the interleaving model in which calls do not overlap
+   projects onto the run of the sequential machine on the same calls *)
+Theorem nonoverlapping_runs_are_sequential q s h s' :
+  Rel q s -> nonoverlap s h s' -> Rel (srun q h) s'.
+Proof.
+  intros HR Hn. revert q HR. induction Hn as [|s t o rest s1 h s2 Ht Hc _ IH]; intros q HR; [done|].
+  destruct (link_step q s t o rest HR Ht) as (s1' & Hc' & HR' & _). rewrite Hc in Hc'. injection Hc' as <-.
+  apply (IH _ HR').
+Qed.
+
+(* and every history of the registry fragment is such an execution: one thread
+   issuing the calls one after the other, each run to completion *)
+Theorem sequential_histories_are_nonoverlapping_runs (prog : list cop) :
+  exists s, nonoverlap (cinit [prog]) (map tr prog) s /\ Rel (srun sinit (map tr prog)) s /\ cterminal s = true.
+Proof.
+  assert (G : forall q s rest, Rel q s -> c_thr s = [(MIdle, rest)] ->
+            exists s', nonoverlap s (map tr rest) s' /\ Rel (srun q (map tr rest)) s' /\ cterminal s' = true).
+  { intros q s rest. revert q s. induction rest as [|o rest IH]; intros q s HR Hthr.
+    - exists s. split_and!; [constructor|done|]. unfold cterminal. by rewrite Hthr.
+    - assert (Ht : c_thr s !! 0 = Some (MIdle, o :: rest)) by (by rewrite Hthr).
+      destruct (link_step q s 0 o rest HR Ht) as (s1 & Hc & HR1 & Hthr1). rewrite Hthr in Hthr1. simpl in Hthr1.
+      destruct (IH _ _ HR1 Hthr1) as (s' & Hn & HR' & HT). exists s'. split_and!; [|done|done].
+      simpl. by eapply no_cons. }
+  apply (G sinit (cinit [prog]) prog); [apply Rel_init|done].
+Qed.
+
+(* C10_duplicate_is_noop at lock level: a Spawn that does not overlap another
+   call and finds its id taken changes nothing but the count of duplicate
+   events — the registry, the Start() calls, the stopped processes are the same *)
+Corollary nonoverlapping_duplicate_add q s t i rest :
+  Rel q s -> c_thr s !! t = Some (MIdle, CAdd i :: rest) -> is_live q i = true ->
+  exists s', complete s t = Some s' /\ Rel (sstep q (OSpawn i)) s' /\
+             c_reg s' = c_reg s /\ c_started s' = c_started s /\ c_stopped s' = c_stopped s /\
+             c_dup s' = length (c_ids s) :: c_dup s /\
+             procs (sstep q (OSpawn i)) = procs q /\ runs (sstep q (OSpawn i)) = runs q.
+Proof.
+  intros HR Ht Hl. destruct (link_step q s t (CAdd i) rest HR Ht) as (s' & Hc & HR' & _).
+  exists s'. split; [done|]. split; [done|].
+  destruct (duplicate_is_noop q i Hl) as (Hp & _ & Hru & _).
+  unfold complete, cstep in Hc. rewrite Ht in Hc.
+  rewrite (rl_live _ _ HR) in Hl. destruct (c_reg s i) as [p0|] eqn:Hr; [|done].
+  cbn [cstep c_thr] in Hc. unfold cstep in Hc. cbn [c_thr] in Hc. rewrite (lookup_insert_same_len _ _ _ _ Ht) in Hc.
+  cbn in Hc. injection Hc as <-. simpl. split_and!; done.
+Qed.
